@@ -7,6 +7,8 @@ import (
 	"github.com/nyaruka/goflow/excellent/types"
 	"github.com/nyaruka/goflow/flows"
 	"github.com/nyaruka/goflow/flows/actions"
+	"github.com/nyaruka/goflow/flows/events"
+	"github.com/nyaruka/goflow/flows/resumes"
 	"github.com/nyaruka/goflow/flows/triggers"
 	"github.com/nyaruka/goflow/zzverif"
 )
@@ -69,14 +71,35 @@ func verifC19Depth() int {
 // the given URN, and returns the rendering of its whole expression context
 // after the start and after one msg resume.
 func verifC19Run(policy envs.RedactionPolicy, urn urns.URN, named bool) []string {
+	return verifC19RunRefreshed(policy, urn, named, false)
+}
+
+// the texts of the messages a sprint created (evaluated templates)
+func verifC19Messages(sp flows.Sprint) []string {
+	var out []string
+	for _, e := range sp.Events() {
+		if mc, ok := e.(*events.MsgCreatedEvent); ok {
+			out = append(out, "msg: "+mc.Msg.Text())
+		}
+	}
+	zzverif.Assert(len(out) > 0, "setup: no message was sent after the wait")
+	return out
+}
+
+// with redactOnResume the session starts under the given policy and the
+// resume carries a refreshed environment with the URN redaction policy; only
+// what is reachable after the resume is returned
+func verifC19RunRefreshed(policy envs.RedactionPolicy, urn urns.URN, named bool, redactOnResume bool) []string {
 	zzverif.ResetEnv()
 	sa := verifNewAssets()
 	// F0 enters F1; F1 saves a result from the input and waits; so the waiting
 	// run has a parent, the parent has a child, and input/results are populated
 	sa.add(verifBuildFlow(0, []verifNodeSpec{{kind: vkEnter, dests: [3]int{-1, -1, -1}, enter: 1}}))
-	wait := verifBuildNode(1, 1, verifNodeSpec{kind: vkWait, dests: [3]int{-1, -1, -1}, hasDef: true})
+	// … and after the wait sends a message built from everything URN related
+	wait := verifBuildNode(1, 1, verifNodeSpec{kind: vkWait, dests: [3]int{2, 2, 2}, hasDef: true})
 	first := verifPlainNodeWithActions(1, 0, 1, actions.NewSetRunResult("r1", "Who", "x", ""))
-	sa.add(verifFlowOf(1, first, wait))
+	last := verifPlainNodeWithActions(1, 2, -1, actions.NewSendMsg("m9", "to @contact @contact.urn @urns.telegram @input.urn @(format_urn(contact.urn)) @(urn_parts(contact.urn).path) @parent.contact.urn", nil, nil, false))
+	sa.add(verifFlowOf(1, first, wait, last))
 	verifLazyOutcomes = false
 	verifOutcomes, verifOutcomePos = nil, 0
 	env := envs.NewBuilder().WithRedactionPolicy(policy).Build()
@@ -93,10 +116,18 @@ func verifC19Run(policy envs.RedactionPolicy, urn urns.URN, named bool) []string
 	var out []string
 	menv := sess.MergedEnvironment()
 	verifWalkContext(menv, "@start", sess.CurrentContext(), verifC19Depth(), &out)
-	_, err = sess.Resume(verifResumeMsg(urn))
+	if redactOnResume {
+		renv := envs.NewBuilder().WithRedactionPolicy(envs.RedactionPolicyURNs).Build()
+		sp, err := sess.Resume(resumes.NewMsg(renv, nil, flows.NewMsgIn(flows.MsgUUID("msg2"), urn, nil, "again", nil)))
+		zzverif.Assert(err == nil, "setup: resume failed")
+		out = nil
+		verifWalkContext(sess.MergedEnvironment(), "@resumed", sess.CurrentContext(), verifC19Depth(), &out)
+		return append(out, verifC19Messages(sp)...)
+	}
+	sp, err := sess.Resume(verifResumeMsg(urn))
 	zzverif.Assert(err == nil, "setup: resume failed")
 	verifWalkContext(menv, "@resumed", sess.CurrentContext(), verifC19Depth(), &out)
-	return out
+	return append(out, verifC19Messages(sp)...)
 }
 
 // VerifC19_Context: two sessions that differ only in the path and display of
@@ -105,7 +136,7 @@ func verifC19Run(policy envs.RedactionPolicy, urn urns.URN, named bool) []string
 // fields, input, parent, child, run, trigger, resume, results, node, …) is
 // equal for every pair of secrets; without the policy a difference is
 // reachable (non-vacuity witness).
-// cover: redacted-equal, unredacted-differs, unnamed-contact
+// cover: redacted-equal, unredacted-differs, unnamed-contact, redaction-switched-on-at-resume
 func VerifC19_Context() {
 	zzverif.Unwind(4000) // the comparison loops below run once per rendered value
 	a, b := verifSecretURN("secret-a"), verifSecretURN("secret-b")
@@ -113,7 +144,19 @@ func VerifC19_Context() {
 	if !named {
 		zzverif.Cover("unnamed-contact")
 	}
-	if zzverif.Choice("policy", 2) == 0 {
+	policy := zzverif.Choice("policy", 3)
+	if policy == 2 {
+		// redaction switched on by an environment refresh while the session is waiting
+		zzverif.Cover("redaction-switched-on-at-resume")
+		ra := verifC19RunRefreshed(envs.RedactionPolicyNone, a, named, true)
+		rb := verifC19RunRefreshed(envs.RedactionPolicyNone, b, named, true)
+		zzverif.Assert(len(ra) == len(rb), "redacted contexts have different shapes")
+		for i := range ra {
+			zzverif.Assert(ra[i] == rb[i], "a value reachable from the expression context depends on the redacted URN")
+		}
+		return
+	}
+	if policy == 0 {
 		ra := verifC19Run(envs.RedactionPolicyURNs, a, named)
 		rb := verifC19Run(envs.RedactionPolicyURNs, b, named)
 		zzverif.Assert(len(ra) == len(rb), "redacted contexts have different shapes")
